@@ -32,6 +32,19 @@ class Cfg:
     s: stride
     f: f32
 
+@config
+class SrcCfg:
+    tile: index
+
+@config
+class DstCfg:
+    tile: index
+
+@proc
+def cfg2cfg(x: f32[4] @ DRAM):
+    DstCfg.tile = SrcCfg.tile
+    x[0] = 0.0
+
 @proc
 def leaf(n: size, dst: [f32][n] @ DRAM, src: [f32][n] @ DRAM):
     assert n >= 1
@@ -156,7 +169,108 @@ def scheduled():
     r = simplify(r)
     return [p, q, r]
 
-PROCS = [leaf, rank3, windows, divmod_, scalars, allocs, configs, externs_, strided, par, casts, shadow] + scheduled()
+PROCS = [cfg2cfg, leaf, rank3, windows, divmod_, scalars, allocs, configs, externs_, strided, par, casts, shadow] + scheduled()
+'''
+
+
+REJECT = r'''
+from __future__ import annotations
+import sys
+from exo import proc, DRAM, compile_procs_to_strings
+from exo.core.memory import Memory, MemGenError
+from exo.libs.memories import AVX2
+
+class ACCEL(Memory):
+    @classmethod
+    def alloc(cls, new_name, prim_type, shape, srcinfo):
+        return f"{prim_type} *{new_name} = 0;"
+    @classmethod
+    def free(cls, new_name, prim_type, shape, srcinfo):
+        return ""
+    @classmethod
+    def can_read(cls):
+        return False
+
+@proc
+def callee_f32(x: f32[4] @ DRAM):
+    x[0] = 1.0
+
+def direct_read():
+    @proc
+    def p(out: f32[4]):
+        buf: f32[8] @ ACCEL
+        out[0] = buf[0]
+    return p
+def direct_write():
+    @proc
+    def p(src: f32[4]):
+        buf: f32[8] @ ACCEL
+        buf[0] = src[0]
+    return p
+def window_read():
+    @proc
+    def p(out: f32[4]):
+        buf: f32[8] @ ACCEL
+        w = buf[2:6]
+        out[0] = w[0]
+    return p
+def window_write():
+    @proc
+    def p(src: f32[4]):
+        buf: f32[8] @ ACCEL
+        w = buf[2:6]
+        w[0] = src[0]
+    return p
+def window_reduce():
+    @proc
+    def p(src: f32[4]):
+        buf: f32[8] @ ACCEL
+        w = buf[2:6]
+        w[0] += src[0]
+    return p
+def window_of_window_read():
+    @proc
+    def p(out: f32[4]):
+        buf: f32[8] @ ACCEL
+        w = buf[0:6]
+        v = w[2:6]
+        out[0] = v[0]
+    return p
+def avx2_window_read():
+    @proc
+    def p(out: f32[8]):
+        regs: f32[2, 8] @ AVX2
+        r = regs[1, 0:8]
+        out[0] = r[0]
+    return p
+def mixed_precision():
+    @proc
+    def p(x: f32[4], y: f64[4]):
+        x[0] = x[1] + y[0]
+    return p
+def precision_across_call():
+    @proc
+    def p(y: f64[4]):
+        callee_f32(y)
+    return p
+def memory_across_call():
+    @proc
+    def p():
+        buf: f32[4] @ ACCEL
+        callee_f32(buf)
+    return p
+
+CASES = [direct_read, direct_write, window_read, window_write, window_reduce, window_of_window_read,
+         avx2_window_read, mixed_precision, precision_across_call, memory_across_call]
+bad = []
+for mk in CASES:
+    try:
+        compile_procs_to_strings([mk()], "r.h")
+        bad.append(mk.__name__)
+    except (MemGenError, TypeError) as e:
+        pass
+print("ACCEPTED:" + ",".join(bad))
+print(len(CASES))
 '''
 
 
@@ -187,6 +301,28 @@ def run(tier="quick", seed=0):
             res["clauses"][key] = "refuted"
             return res
         nprocs = int(r.stdout.strip().splitlines()[-1])
+        # the inconsistent family: every member must be rejected at compile time
+        rej = os.path.join(d, "reject.py")
+        with open(rej, "w") as f:
+            f.write(REJECT)
+        rr = subprocess.run(["/venv/bin/python", rej], capture_output=True, text=True, env=env, timeout=900)
+        key2 = "src/exo/backend :: [bounded] procedures with inconsistent memory/precision annotations are rejected at compile time"
+        acc = [l for l in rr.stdout.splitlines() if l.startswith("ACCEPTED:")]
+        if rr.returncode != 0 or not acc:
+            res["undecided"].append("C15 reject family crashed: " + (rr.stdout + rr.stderr)[-600:])
+        else:
+            accepted = [x for x in acc[0][len("ACCEPTED:"):].split(",") if x]
+            ncase = int(rr.stdout.strip().splitlines()[-1])
+            res["bounded"].append(dict(target="inconsistent annotations rejected by compile_procs_to_strings",
+                                       bound="10 procedures: direct and windowed access to an unreadable memory, AVX2 register "
+                                             "windows, mixed precisions, precision / memory mismatch across a call",
+                                       cases=ncase, failed=len(accepted)))
+            if accepted:
+                res["violations"].append(dict(obligation=key2, confirmed=True,
+                                              replay_script=_replay("compile accepted inconsistent procedures", ", ".join(accepted))))
+                res["clauses"][key2] = "refuted"
+            else:
+                res["clauses"][key2] = "discharged"
         diags = []
         with open(os.path.join(d, "hdr_only.c"), "w") as f:
             f.write('#include "fam.h"\n#include "fam.h"\nint pyvc_dummy;\n')
